@@ -20,7 +20,7 @@ def section():
            "related checks that were run and stayed silent - in every such case the change does not break that check's property (e.g. a "
            "table row replaced by a cheaper circuit on a non-edge breaks C02 but neither C04 nor C05; a memoised circuit that is re-repaired "
            "on every call differs from a fresh interpreter's answer (C13) but still prepares the right state (C01)). `-R2` = second round, "
-           "`-R3A/B` = third round (`first contact: no` marks the ones that were missed before the additions of 8.3b). Full details per "
+           "`-R3A/B` = third round, `-R4A/B` = fourth batch (`first contact: no` marks the ones that were missed before the additions of 8.3b / 8.3c). Full details per "
            "change: `seeded/<name>/meta.json` and `notes.md`.", "",
            "| change | breaks | needs, in order to manifest | caught by | also run, silent |", "|---|---|---|---|---|"]
     n = conf = 0
